@@ -358,6 +358,10 @@ func parseHTMLTag(line []byte, pos int) (tag string, end int, isClosing bool, is
 		i++
 	}
 	tag = strings.ToLower(string(line[start:i]))
+	if i < len(line) && line[i] != '>' && line[i] != '/' && !util.IsSpace(line[i]) {
+		// "<https://...>" and "<me@example.org>" are autolinks, not tags.
+		return "", 0, false, false, false
+	}
 	for i < len(line) {
 		c := line[i]
 		if c == '"' || c == '\'' {
